@@ -55,6 +55,17 @@ class FsmTracker(TagTracker):
         if self.stores is not None:
             self.stores.append((ps, block, node, key, val, dict(state), ps.cur_in, ps.store_old))
 
+    def on_switch_case(self, ps, term, value, state):
+        # `switch (param) { case K:` is `param == K` on that edge
+        c = strip(term.get("c"))
+        while c is not None and c.get("k") == "cast":
+            c = strip(c["e"])
+        if c is not None and c.get("k") == "var" and c.get("sc") == "p" and c.get("t") in INT_TYPES:
+            state = dict(state)
+            state[("E", "param:%s" % c["n"])] = value
+            return state
+        return None
+
     def on_branch(self, ps, term, truth, state):
         # remember to which constant an integer *parameter* was shown equal (it may be dead later)
         c = strip(term.get("c"))
